@@ -405,4 +405,27 @@ theorem pk_roundtrip (N : Nat) (hN : N = 512 ∨ N = 1024) (h : List Nat) (hl : 
   apply List.map_congr_left
   intro x hx
   exact new_small x (hq x hx)
+/-- what `Signature::to_bytes` emits for a body of the right length parses back to the same (salt, body) -/
+theorem sig_parse (N L : Nat) (salt body : List Nat) (hsalt : salt.length = 40) (hb : body.length = L)
+    (hNL : (N = 512 ∧ L = 625) ∨ (N = 1024 ∧ L = 1239)) :
+    sigFromBytes N (sigToBytes salt body) = .ok (.ok (salt, body)) := by
+  have hlen : (sigToBytes salt body).length = 41 + L := by
+    simp [sigToBytes, hsalt, hb]; omega
+  have hd1 : ((sigToBytes salt body).drop 1).take 40 = salt := by
+    simp [sigToBytes, ← hsalt]
+  have hd2 : (sigToBytes salt body).drop 41 = body := by
+    have : (41 : Nat) = (salt.length + 1) := by omega
+    simp only [sigToBytes, this]
+    rw [List.drop_left' (by simp)]
+  have hh : (sigToBytes salt body)[0]? = some (((Gen.sigFeltEncoding * 32) % 256) ||| 16 ||| (ilog2 L % 256)) := by
+    simp [sigToBytes, hb]
+  rcases hNL with ⟨rfl, rfl⟩ | ⟨rfl, rfl⟩
+  · unfold sigFromBytes
+    simp only [hlen, sigN, idx, hh, Gen.saltLen, Gen.sigBodyOffset, hd1, hd2]
+    rfl
+  · unfold sigFromBytes
+    simp only [hlen, sigN, idx, hh, Gen.saltLen, Gen.sigBodyOffset, hd1, hd2]
+    rfl
+
+
 end Falcon.KeyCodec
